@@ -277,7 +277,7 @@ func runOnce(sc *scenario, c *dfs.Chooser) result {
 			}
 		})
 	}
-	res := vsync.Run(c, 5000, bodies)
+	res := vsync.Run(c, 1500, bodies)
 	out := result{res: res}
 	if res.Panic != nil {
 		k, site := report.PanicKey(res.Panic, res.PanicStack)
@@ -285,7 +285,7 @@ func runOnce(sc *scenario, c *dfs.Chooser) result {
 	} else if res.Deadlock {
 		w.fail("deadlock", "no thread enabled: "+strings.Join(res.Blocked, ", "))
 	} else if res.Livelock {
-		w.fail("livelock", "more than 5000 scheduling steps")
+		w.fail("livelock", "more than 1500 scheduling steps")
 	} else {
 		// sequential epilogue: everything that is still open is flushed
 		func() {
@@ -369,11 +369,19 @@ func main() {
 				break
 			}
 			cnt := int64(0)
-			st := dfs.Explore(b, 0, r.Expired, func(c *dfs.Chooser) {
+			newViol := 0
+			// once a bound has produced unlisted violations there is nothing to gain from
+			// finishing it or from higher bounds: the check already fails (the run is then
+			// reported as not exhaustive)
+			stop := func() bool { return newViol >= 20 || r.Expired() }
+			st := dfs.Explore(b, 0, stop, func(c *dfs.Chooser) {
 				res := runOnce(sc, c)
 				cnt++
 				outcomes[sc.name+"|"+res.outcome] = struct{}{}
 				for _, v := range res.viol {
+					if !r.IsKnown("c12|tcpassembly|" + v + "|" + sc.name) {
+						newViol++
+					}
 					r.Violation("c12|tcpassembly|"+v+"|"+sc.name, fmt.Sprintf("%s; scenario %s threads %v pre %v; preemption bound %d; choices %v", res.what, sc.name, sc.threads, sc.pre, b, c.Trace()),
 						int64(b)*1_000_000+int64(len(c.Trace())), map[string]any{"package": "tcpassembly", "scenario": sc.name, "schedule": c.Trace(), "threads_run": res.res.Trace})
 				}
@@ -388,6 +396,7 @@ func main() {
 					}
 				}
 			})
+			fmt.Printf("# %s bound %d: %d executions, %d choice points, max depth %d, capped=%v\n", sc.name, b, st.Executions, st.Points, st.MaxDepth, st.Capped)
 			if st.Capped {
 				r.Exhaustive = false
 				if b-1 < boundDone {
@@ -399,6 +408,11 @@ func main() {
 				os.Exit(2)
 			}
 			stLast = st
+			if newViol > 0 {
+				execs += st.Executions
+				points += st.Points
+				break
+			}
 			if b == bounds[len(bounds)-1] || st.Capped {
 				execs += st.Executions
 				points += st.Points
